@@ -38,11 +38,13 @@ def site_of(case):
     if case["in_free"]:
         return "free-block"
     b = case["base"]
-    if b.startswith("const-"):
+    # `at` = kind of the slot statement that holds the mutated point: a mutant of the *use* after a
+    # const declaration, or of the call next to a label, is judged strictly like everything else
+    if b.startswith("const-") and case["at"] == "item":
         return "const-decl"
-    if b.startswith("interrupt"):
+    if b.startswith("interrupt") and case["at"] == "interrupt":
         return "interrupt-label"
-    if b.startswith("rel-label"):
+    if b.startswith("rel-label") and case["at"] == "rel":
         return "rel-time-label"
     return "%s@%s" % (b, "/".join(case["pos"]) or "top")
 
